@@ -361,9 +361,15 @@ def check_extra_rows(prog: Program, rep, F: IntegrateFacts, rule: str) -> None:
     for call in F.row_calls:
         if F._inside(call, F.loop):
             continue
+        encl = call
+        while encl is not None and not isinstance(encl, (ast.FunctionDef, ast.Lambda)):
+            encl = getattr(encl, '_parent', None)
+        if encl is not F.func.node:
+            rep.undecided(rule, tc.where(call), f'row site at line {call.lineno}', 'inside a nested function: when it runs is not traced')
+            continue
         node = F.cfg.node_of(call)
         if node is None:
-            continue                  # inside a nested function: C05.R4 reports those
+            continue
         if node.line < F.loop.lineno:
             rep.fail(rule, tc.path, call.lineno, F.func.qualname, 'row-before-loop',
                      'a row is built before the integration loop, outside the recording call')
